@@ -31,7 +31,7 @@ CONSTANTS
   ResumeKinds,  \* subset of {"msg", "timeout", "expiration", "dial"}
   NodeKinds,    \* subset of {"act", "failact", "split", "wait", "dialwait", "enter"}
   DfltChoices,  \* subset of BOOLEAN: may switch routers lack a default category
-  FaultKinds,   \* subset of {"flow_gone", "parent_gone", "node_gone", "pnode_gone", "wait_gone", "wait_dial"} (asset faults between sprints)
+  FaultKinds,   \* subset of {"flow_gone", "parent_gone", "node_gone", "pnode_gone", "wait_gone", "wait_dial", "group_added"} (asset faults between sprints)
   MaxFaults,
   Quirks        \* named deviations of the code from the design, e.g. {"stale_step"}
 
@@ -371,6 +371,9 @@ AssetFault(fk) ==
                                /\ def' = [def EXCEPT ![runs[runs[w].parent].flow][NodeOfLast(runs, runs[w].parent)] = Gone] /\ UNCHANGED gone
        [] fk = "wait_gone" -> def[f][n].kind = "wait" /\ def' = [def EXCEPT ![f][n].kind = "split"] /\ UNCHANGED gone
        [] fk = "wait_dial" -> def[f][n].kind = "wait" /\ def' = [def EXCEPT ![f][n].kind = "dialwait"] /\ UNCHANGED gone
+       \* a query-based group that matches the contact appears among the assets: nothing of the state machine changes, the
+       \* contact's membership is stale until a sprint re-evaluates it - a REJECTED resume must not be that sprint (Untouched)
+       [] fk = "group_added" -> UNCHANGED <<def, gone>>
   /\ nfaults' = nfaults + 1
   /\ UNCHANGED <<trig, trigch, status, runs, pc, cur, exit, pushed, nsteps, stepreg, nwaits, events, err, ncalls>>
   /\ LET w == WaitingRun IN
